@@ -132,7 +132,7 @@ func NewRun(p *Program, prop, tier string, seed int) *Run {
 
 // Check records an obligation. Duplicate (rule, site, ok) triples are merged.
 func (r *Run) Check(rule, site string, ok bool, pos token.Pos, format string, args ...any) bool {
-	if r.Spec != nil && !r.Spec.keeps(rule) {
+	if r.Spec != nil && (!r.Spec.keeps(rule) || !r.Spec.keepsSite(rule, site)) {
 		return ok
 	}
 	key := fmt.Sprintf("%s|%s|%v", rule, site, ok)
@@ -148,7 +148,7 @@ func (r *Run) Check(rule, site string, ok bool, pos token.Pos, format string, ar
 
 // CheckT is Check with a path trace attached to a failing obligation.
 func (r *Run) CheckT(rule, site string, ok bool, pos token.Pos, path *Path, format string, args ...any) bool {
-	if r.Spec != nil && !r.Spec.keeps(rule) {
+	if r.Spec != nil && (!r.Spec.keeps(rule) || !r.Spec.keepsSite(rule, site)) {
 		return ok
 	}
 	key := fmt.Sprintf("%s|%s|%v", rule, site, ok)
